@@ -1037,41 +1037,38 @@ func (p *Proof) undoAdd(numAdds, numLeaves uint64, cachedHashes []Hash, toDestro
 	forestRows := TreeRows(numLeaves)
 	prevForestRows := TreeRows(numLeaves - numAdds)
 
-	// Move positions to their previous positions before the empty roots were destroyed.
-	for _, destroyed := range toDestroy {
-		for i, target := range targetsWithHash.positions {
-			if destroyed <= target {
-				continue
-			}
+	// Undoing every leaf means that there's nothing left to prove.
+	if numLeaves == numAdds {
+		p.Targets = p.Targets[:0:0]
+		p.Proof = p.Proof[:0:0]
+		return []Hash{}, nil
+	}
 
-			// If these positions are in different subtrees, continue.
-			subtree, _, _, _ := DetectOffset(target, numLeaves)
-			subtree1, _, _, _ := DetectOffset(destroyed, numLeaves-numAdds)
-			if subtree != subtree1 {
-				continue
-			}
-			if isAncestor(Parent(destroyed, forestRows), target, forestRows) {
-				targetsWithHash.positions[i] = calcPrevPosition(target, destroyed, forestRows)
+	// Move positions to their previous positions before the empty roots were destroyed.
+	// When an empty root was destroyed, its sibling and all of the sibling's descendants
+	// moved up by a row. The destructions are undone newest first as the later
+	// destructions also moved the subtrees that the earlier ones had moved.
+	for i := len(toDestroy) - 1; i >= 0; i-- {
+		destroyed := toDestroy[i]
+		movedTo := Parent(destroyed, forestRows)
+
+		for j, target := range targetsWithHash.positions {
+			if target == movedTo || isAncestor(movedTo, target, forestRows) {
+				targetsWithHash.positions[j] = calcPrevPosition(target, destroyed, forestRows)
 			}
 		}
 
-		for i, target := range proofWithPos.positions {
-			if destroyed <= target {
-				continue
-			}
-			// If these positions are in different subtrees, continue.
-			subtree, _, _, _ := DetectOffset(target, numLeaves)
-			subtree1, _, _, _ := DetectOffset(destroyed, numLeaves-numAdds)
-			if subtree != subtree1 {
-				continue
-			}
-			if isAncestor(Parent(destroyed, forestRows), target, forestRows) {
-				proofWithPos.positions[i] = calcPrevPosition(target, destroyed, forestRows)
+		for j, target := range proofWithPos.positions {
+			if target == movedTo || isAncestor(movedTo, target, forestRows) {
+				proofWithPos.positions[j] = calcPrevPosition(target, destroyed, forestRows)
 			}
 		}
 	}
+	sort.Sort(targetsWithHash)
+	sort.Sort(proofWithPos)
 
-	// Prune all positions that can't exist in the previous forest rows.
+	// Prune all positions that can't exist in the previous forest. This gets rid of
+	// all the leaves and the nodes that were created by the additions.
 	var err error
 	targetsWithHash, err = pruneEdges(targetsWithHash, numAdds, numLeaves, forestRows, prevForestRows)
 	if err != nil {
@@ -1080,31 +1077,6 @@ func (p *Proof) undoAdd(numAdds, numLeaves uint64, cachedHashes []Hash, toDestro
 	proofWithPos, err = pruneEdges(proofWithPos, numAdds, numLeaves, forestRows, prevForestRows)
 	if err != nil {
 		return nil, err
-	}
-
-	// Prune all positions that are under the previously empty root.
-	for row := 0; row <= int(prevForestRows); row++ {
-		for _, destroyed := range toDestroy {
-			for i := 0; i < proofWithPos.Len(); i++ {
-				target := proofWithPos.positions[i]
-				// If these positions are in different subtrees, continue.
-				subtree, _, _, _ := DetectOffset(destroyed, numLeaves)
-				subtree1, _, _, _ := DetectOffset(target, numLeaves)
-				if subtree == subtree1 || target == destroyed {
-					proofWithPos.Delete(i)
-				}
-			}
-
-			for i := 0; i < targetsWithHash.Len(); i++ {
-				target := targetsWithHash.positions[i]
-				// If these positions are in different subtrees, continue.
-				subtree, _, _, _ := DetectOffset(destroyed, numLeaves)
-				subtree1, _, _, _ := DetectOffset(target, numLeaves)
-				if subtree == subtree1 || target == destroyed {
-					targetsWithHash.Delete(i)
-				}
-			}
-		}
 	}
 
 	// Remap all positions to their previous positions before the remap.
